@@ -3,7 +3,7 @@ from .. import core, fm, km, mc, ref
 from ..core import Failure
 from .c01 import minimise, NAMINGS, scope_iter
 
-FORMS = ['obj', 'text', 'str', 'ctls']
+FORMS = ['obj', 'text', 'str', 'ctls', 'shared']
 
 
 def call(K, g, naming, how, form, kripke=None):
@@ -154,7 +154,7 @@ def enum_shard(st, shard, nshards, payload):
     idx = -1
     for (n, k, stride) in payload['scopes']:
         paths = path_scope(k)
-        objs = [fm.to_lib(('A', g), L) for g in paths]
+        objs = [fm.to_lib(('A', g), L, share={} if gi_ % 2 else None) for gi_, g in enumerate(paths)]
         cls = [classes_of(g) for g in paths]
         for j, K in enumerate(scope_iter(n, stride, nshards)):
             # every stride-th structure of THIS scope (S(4)+ are already strided by the decoder),
@@ -188,7 +188,7 @@ def enum_shard(st, shard, nshards, payload):
                         st.bump(c)
                     st.bump('states=%d' % n)
                 if out != ('set', exp):
-                    inp = {'K': K, 'g': g, 'naming': naming, 'how': how, 'form': 'obj'}
+                    inp = {'K': K, 'g': g, 'naming': naming, 'how': how, 'form': 'shared' if gi % 2 else 'obj'}
                     fresh = check_ltl(inp)
                     if fresh is None:
                         st.add_extra('mismatch_only_with_reused_structure')
